@@ -53,7 +53,8 @@ def valid(toks, seps):
     return True
 
 
-ATOMIC_STR = {TOK[i] for i in ATOMIC}
+TOK_RUNS = ["aa", "{% a %}", "{% b %}", "{{ v }}", "<!-- c -->"]   # alphabet of the tag-runs space (several same-kind boundaries)
+ATOMIC_STR = {TOK[i] for i in ATOMIC} | set(TOK_RUNS[1:])
 
 
 def oracle(space, case, text, width, sem):
@@ -72,7 +73,8 @@ def oracle(space, case, text, width, sem):
         else:
             stripped.append(ln.lstrip(" >"))  # e.g. an un-indented closing tag: reported by clause (iii)/(ii), not here
     body = "\n".join(stripped)
-    toks = ["zz"] + [TOK[k] for k in ks]
+    A = space.alphabet
+    toks = ["zz"] + [A[k] for k in ks]
     gaps = ["sp"] + list(seps)
     viol = []
     pos = 0
@@ -82,14 +84,14 @@ def oracle(space, case, text, width, sem):
     pos = m0.end()
     if any(s == "adj" for s in seps):
         tags.append("adjacency")
-    if width > 0 and any(len(TOK[k]) > width and k in ATOMIC for k in ks):
+    if width > 0 and any(len(A[k]) > width and A[k] in ATOMIC_STR for k in ks):
         tags.append("atomic-wider-than-width")
     for tok, sep, k in zip(toks[1:], gaps, ks):
         m = re.compile(r"(\s*)\\?(" + tok_re(tok) + ")").match(body, pos)
         if not m:
             viol.append(("i:construct-altered", {"input": text, "output": out, "token": tok, "width": width, "semantic": sem}))
             break
-        if k in ATOMIC and "\n" in m.group(2) and "\n" not in tok:
+        if tok in ATOMIC_STR and "\n" in m.group(2) and "\n" not in tok:
             viol.append(("i:construct-split", {"input": text, "output": out, "token": tok, "width": width, "semantic": sem}))
         had_ws = sep != "adj"
         has_ws = bool(m.group(1))
@@ -126,6 +128,12 @@ CONTENT = [
 ]
 
 
+# blocks put in front of the tag block (appended later): code blocks whose fences are legal but unusual; the tag block after
+# them must be treated exactly as without them
+PREAMBLE = [[], ["```", "x", "```", ""], ["```py", "x", "````", ""], ["~~~", "x", "~~~~~", ""], [" ```", " x", " ```", ""], ["````", "```", "````", ""],
+            ["    code", ""], ["<div>", "x", "</div>", ""], ["> ```", "> x", ""]]
+
+
 class TagBlocks(Space):
     """opening tag line / content / closing tag line, with and without blank lines, indented closer."""
 
@@ -137,6 +145,13 @@ class TagBlocks(Space):
         self.floors = {"block-content": 50}
 
     def cases(self):
+        for case in self._cases():
+            yield case
+            if case[3] is False and case[5] == "" and case[4] == 0:
+                for pre in range(1, len(PREAMBLE)):
+                    yield case + (pre,)
+
+    def _cases(self):
         for t in range(len(OPEN)):
             for c in range(len(CONTENT)):
                 for blank_before in (False, True):
@@ -148,14 +163,21 @@ class TagBlocks(Space):
                                         yield (t, c, blank_before, blank_after, closer_indent, trailing, w, sem)
 
     def text(self, case):
-        t, c, bb, ba, ci, tr, w, sem = case
-        lines = [OPEN[t] + tr] + ([""] if bb else []) + CONTENT[c][1] + ([""] if ba else []) + [" " * ci + CLOSE[t] + tr]
+        t, c, bb, ba, ci, tr, w, sem = case[:8]
+        pre = PREAMBLE[case[8]] if len(case) > 8 else []
+        lines = pre + [OPEN[t] + tr] + ([""] if bb else []) + CONTENT[c][1] + ([""] if ba else []) + [" " * ci + CLOSE[t] + tr]
         return "\n".join(lines) + "\n"
 
     def describe(self, case):
         return {"text": self.text(case), "width": case[6], "semantic": case[7]}
 
     def smaller(self, case):
+        if len(case) > 8:
+            yield case[:8]
+            for x in self.smaller(case[:8]):
+                if x[3] is False and x[5] == "" and x[4] == 0:
+                    yield x + (case[8],)
+            return
         t, c, bb, ba, ci, tr, w, sem = case
         if t:
             yield (0, c, bb, ba, ci, tr, w, sem)
@@ -175,7 +197,7 @@ class TagBlocks(Space):
             yield (t, c, bb, ba, ci, tr, 88, sem)
 
     def evaluate(self, case):
-        t, c, bb, ba, ci, tr, w, sem = case
+        t, c, bb, ba, ci, tr, w, sem = case[:8]
         text = self.text(case)
         kind = CONTENT[c][0]
         out = reformat_text(text, width=w, semantic=sem, cleanups=False)
@@ -222,4 +244,9 @@ def spaces(tier):
                      valid=valid, floors={"adjacency": 500, "atomic-wider-than-width": 500, "tag-alone-on-line": 50})
     tag = TOK.index("{% t %}")
     para.class_rep = {i: tag for i in _TAGS if i != tag}
-    return [para, TagBlocks(tier)]
+    # runs of up to 4 (quick) / 5 tags with every mix of adjacent / separated boundaries: several boundaries of the same kind
+    # in one paragraph, every critical width (a line break AT an earlier boundary must not disturb a later one)
+    runs = ParaSpace("C06", "tag-runs", TOK_RUNS, 4 if q else 5, oracle, ctx, sepnames=("adj", "sp"), full_upto=3 if q else 4, reps=[0, 1, 2],
+                     lead="zz ", valid=valid, floors={"adjacency": 500, "atomic-wider-than-width": 500})
+    runs.class_rep = {2: 1}
+    return [para, TagBlocks(tier), runs]
